@@ -12,7 +12,7 @@ import Univers.Vers.PyRtLemmas
 namespace Univers.Gen.LayerB
 open Univers Univers.PyRt
 
-variable {V : Type} (o : VOps V)
+variable {V : Type} (o : VOps V) (perm : List (Con V) → List (Con V))
 
 @[simp] theorem cv_tab1 (c : Con V) : contains_version_tab1 (comparator c) = c.hasNeSub := by
   cases c with
@@ -42,11 +42,11 @@ theorem cv_tab1_isNe (c : Con V) : contains_version_tab1 (comparator c) = c.isNe
 
 /-! ### `contains_version` -/
 
-theorem con_contains_eq (c : Con V) (x : V) : con_contains o c x = .ok (c.sat o x) := rfl
+theorem con_contains_eq (c : Con V) (x : V) : con_contains o perm c x = .ok (c.sat o x) := rfl
 
 theorem for3_after_eq (x : V) (cs : List (Con V)) (u : Bool) (c : Con V) (cc : CmpVal) (ccon : Option (Con V))
     (first : Bool) :
-    contains_version_for3_after o x cs u (ccon, some c, cc, comparator c, first) = scanLoop o x first [c] := by
+    contains_version_for3_after o perm x cs u (ccon, some c, cc, comparator c, first) = scanLoop o x first [c] := by
   cases c with
   | star => simp [contains_version_for3_after, scanLoop, comparator, contains_version_tab5, bind, Except.bind]
   | mk k v =>
@@ -57,7 +57,7 @@ theorem for3_after_eq (x : V) (cs : List (Con V)) (u : Bool) (c : Con V) (cc : C
 /-- one round of the loop body, as the model's `scanLoop` reads it -/
 theorem for3_body_eq (x : V) (cs : List (Con V)) (u : Bool) (b c : Con V) (first : Bool) (cc nc : CmpVal)
     (ccon ncon : Option (Con V)) :
-    contains_version_for3_body o x cs u (b, c) (ccon, ncon, cc, nc, first) =
+    contains_version_for3_body o perm x cs u (b, c) (ccon, ncon, cc, nc, first) =
       (match b, c with
        | .mk k v, .mk d w =>
           if first && (k.isUpper && o.lt x v) then .ok (.ret true)
@@ -94,8 +94,8 @@ theorem for3_body_eq (x : V) (cs : List (Con V)) (u : Bool) (b c : Con V) (first
 /-- the `pairwise` loop with the statement after it is the model's `scanLoop` -/
 theorem for3_eq (x : V) (cs : List (Con V)) (u : Bool) (b c : Con V) (rest : List (Con V)) (first : Bool)
     (cc nc : CmpVal) (ccon ncon : Option (Con V)) :
-    pyFor (PyRt.pairwise (b :: c :: rest)) (ccon, ncon, cc, nc, first) (contains_version_for3_body o x cs u)
-        (contains_version_for3_after o x cs u)
+    pyFor (PyRt.pairwise (b :: c :: rest)) (ccon, ncon, cc, nc, first) (contains_version_for3_body o perm x cs u)
+        (contains_version_for3_after o perm x cs u)
       = scanLoop o x first (b :: c :: rest) := by
   induction rest generalizing b c first cc nc ccon ncon with
   | nil =>
@@ -118,18 +118,18 @@ theorem for3_eq (x : V) (cs : List (Con V)) (u : Bool) (b c : Con V) (rest : Lis
       | mk e w => simp [scanLoop, ih]
 
 theorem for1_eq (x : V) (cs : List (Con V)) (k : Unit → Except Err Bool) :
-    pyFor cs () (contains_version_for1_body o x cs) k
+    pyFor cs () (contains_version_for1_body o perm x cs) k
       = if cs.any (fun c => c.hasNeSub && c.verEq o x) then .ok false else k () := by
-  have : contains_version_for1_body o x cs =
+  have : contains_version_for1_body o perm x cs =
       fun c st => if (fun c => Con.hasNeSub c && Con.verEq o x c) c then .ok (.ret false) else .ok (.next st) := by
     funext c st
     simp [contains_version_for1_body]
   rw [this, pyFor_ret_any]
 
 theorem for2_eq (x : V) (cs : List (Con V)) (k : Unit → Except Err Bool) :
-    pyFor cs () (contains_version_for2_body o x cs) k
+    pyFor cs () (contains_version_for2_body o perm x cs) k
       = if cs.any (fun c => c.hasEqChar && c.verEq o x) then .ok true else k () := by
-  have : contains_version_for2_body o x cs =
+  have : contains_version_for2_body o perm x cs =
       fun c st => if (fun c => Con.hasEqChar c && Con.verEq o x c) c then .ok (.ret true) else .ok (.next st) := by
     funext c st
     simp [contains_version_for2_body]
@@ -137,7 +137,7 @@ theorem for2_eq (x : V) (cs : List (Con V)) (k : Unit → Except Err Bool) :
 
 /-- the end of the function, on the filtered list -/
 theorem for2_after_eq (x : V) (cs : List (Con V)) :
-    contains_version_for2_after o x cs () = containsBounds o x cs (cs.filter (fun c => !(c.isEq || c.isNe))) := by
+    contains_version_for2_after o perm x cs () = containsBounds o x cs (cs.filter (fun c => !(c.isEq || c.isNe))) := by
   have hf : cs.filter (fun c => contains_version_tab3 (comparator c)) = cs.filter (fun c => !(c.isEq || c.isNe)) := by
     apply List.filter_congr; intro c _; simp
   have ha : cs.all (fun c => contains_version_tab1 (comparator c)) = cs.all (fun c => c.isNe) := by
@@ -152,11 +152,11 @@ theorem for2_after_eq (x : V) (cs : List (Con V)) :
       List.length_cons]
     have : ¬ (rest.length + 1 + 1 = 1) := by omega
     simp only [this, decide_false, Bool.false_eq_true, ↓reduceIte]
-    exact for3_eq o x _ _ b c rest true _ _ _ _
+    exact for3_eq o perm x _ _ b c rest true _ _ _ _
 
 /-- **`contains_version` as translated from the source is the model's `containsVersion`.** -/
 theorem contains_version_eq (x : V) (cs : List (Con V)) :
-    contains_version o x cs = containsVersion o x cs := by
+    contains_version o perm x cs = containsVersion o x cs := by
   unfold contains_version containsVersion
   match cs with
   | [c] => simp [index, con_contains_eq, bind, Except.bind]
